@@ -43,6 +43,30 @@ N = {
  "C07-2": ("get_tau: max_tau/2 cap dropped from one branch only", "max_tau given, interior spikes, neighbouring intervals > 2*max_tau: SPIKE-Sync depends on argument order"),
  "C08-1": ("isi_distance_python tie branch: end-edge guard of train 2 tests N1", "train 1 one spike coinciding with the last spike of train 2 (>= 2 spikes), long last ISI: mirror image differs"),
  "C08-2": ("spike_train_order_profile_python: `<=` in the train-2 branch only", "exact tie with tau on a regular grid: reversal no longer negates"),
+ "C01-3": ("isi_distance_python trailing trim tests only train 1's last spike", "only train 2 ends on t_end, or train 2 empty and train 1 not ending on t_end: duplicate t_end breakpoint"),
+ "C01-4": ("isi_profile_bi: kwargs replaced by {'Reconcile': False} inside the reconcile block (MRTS dropped)", "direct two-train isi_profile call with default Reconcile and MRTS above some max(v1,v2)"),
+ "C02-3": ("get_min_dist: `>=` instead of `>` in the early exit", "other train a lone spike exactly on t_start (coincides with its own auxiliary spike) and a partner spike nearer t_end"),
+ "C02-4": ("resolve_keywords: RI looked up only when MRTS is given", "RI=True without an MRTS keyword"),
+ "C03-3": ("coincidence_single_python: `<=` instead of `<` for the following partner only", "exact distance == window tie with the partner being the later spike, seen through the filter"),
+ "C03-4": ("coincidence_python: window no longer capped by the recording length (profile routine only)", "max_tau above half the recording and a pair whose window is not bounded by a real ISI"),
+ "C05-3": ("spike_distance_bi interval branch requests the profile without **kwargs (RI dropped)", "RI=True together with an explicit interval"),
+ "C05-4": ("spike_sync_multi: coincidence/max(mp, 1.0) instead of the mp == 0 -> 1.0 convention", "multivariate route and an interval in which no selected train fires"),
+ "C06-3": ("_generic_profile_multi single-pair branch drops **kwargs", "exactly two trains through the multi interface with MRTS or RI"),
+ "C06-4": ("spike_sync_multi 0/0 guard tests the coincidence sum instead of the multiplicity sum", "spikes present but no coincidence at all in the evaluated range"),
+ "C09-3": ("add_piece_wise_lin_python: x_new allocated with the receiver's dtype", "integer-typed receiver breakpoints and an operand with non-integer breakpoints"),
+ "C09-4": ("PieceWiseConstFunc.add fast path for a zero single-piece receiver shares the operand's arrays", "zero accumulator, one add, then an in-place mul_scalar"),
+ "C11-3": ("add_discrete_function_python merge loop condition reads the second operand's last x instead of its index bound", "operand 2 has an event on t_end, operand 1 none there and still unconsumed events"),
+ "C11-4": ("DiscreteFunc.integral(None) routed through the open-interval index selection", "an event exactly on t_start / t_end with interval=None"),
+ "C13-3": ("reconcile_spike_trains fast path for equal edges + sorted input skips the out-of-interval filter", "equal edges, already sorted, one spike more than 1e-6 outside the edges"),
+ "C13-4": ("spike_directionality: spike count taken before reconciliation", "normalize=True and a repeated / out-of-interval spike in the first train"),
+ "C14-3": ("_spike_directionality_values_impl normalises by len(spike_trains)-1 instead of len(indices)-1", "an `indices` selection smaller than the list"),
+ "C14-4": ("spike_directionality_matrix: `RI, MRTS = resolve_keywords(...)` swapped", "matrix form with a non-default MRTS that widens a coincidence window"),
+ "C15-3": ("default_thresh skips trains without spikes", "an empty train in the list / pair with MRTS='auto'"),
+ "C15-4": ("_generic_distance_matrix resolves 'auto' from the selected trains only", "REJECTED as a seed: under C14 (index selection == sub-list) this is the correct behaviour for the matrix form - it partially repairs known finding F10; its demonstration asserts the whole-list threshold, i.e. F10's behaviour"),
+ "C17-3": ("coincidence_single_python second-check guard `j < 1` instead of `j < 0`", "a train with two spikes before another train's first spike and then a spike coincident with that first spike"),
+ "C17-4": ("filter_by_spike_sync builds the removed trains with a scalar edge", "return_removed_spikes=True and a recording that does not start at 0"),
+ "C18-3": ("spike_directionality: zero-spike guard moved into the compiled-kernel try block", "Python fall-back, normalize=True, empty train first: NaN"),
+ "C18-4": ("_spike_directionality_values_impl result buffers sized by position instead of selected train", "a non-prefix `indices` selection with trains of different spike counts"),
 }
 rows = []
 for key, (what, needs) in sorted(N.items()):
